@@ -8,8 +8,9 @@ Observations per case:
   1. the post-state document (identity classes renumbered) or the exception
      family + the post-state;
   2. the declarative expectation computed by the harness from a shadow copy of
-     the pre-state (wf flag, guard flag, expected document) - compared with the
-     extracted Coq spec (delete_spec / no_dup_no_disorder / wf_docb)."""
+     the pre-state (wf flag, guard flag, document-order flag, expected document)
+     - compared with the extracted Coq spec (delete_spec / no_dup_no_disorder /
+     doc_ordered / wf_docb)."""
 import random
 
 import docenc
@@ -158,6 +159,25 @@ def delete_record(p, path):
         if idx is not None:
             seen.add(idx)
             removed.add((id(nc.parent), idx))
+    # "located, distinct, in document order within each parent" on the coordinates in GATHER order
+    # (= C04spec.doc_ordered, evaluated by the extracted Coq function on the same coordinates)
+    ordered = True
+    tg = []
+    for nc in reversed(order):
+        ent = shadow.kids.get(id(nc.parent)) if nc.parent is not None else None
+        idx = shadow.child_index(nc.parent, nc.parentref) if ent is not None else None
+        if idx is None:
+            ordered = False
+            break
+        neg = (ent[0] == "S" and isinstance(nc.parentref, int) and not isinstance(nc.parentref, bool)
+               and nc.parentref < 0)
+        tg.append((id(nc.parent), idx, neg))
+    if ordered:
+        for a in range(len(tg)):
+            for b in range(a + 1, len(tg)):
+                if tg[a][0] == tg[b][0] and not (tg[a][1] < tg[b][1] and not tg[a][2]):
+                    ordered = False
+    rec["ordered"] = ordered
     wf = tree_containers_unique(data, shadow)
     expected = docenc.canon_doc_text(mutgen.ShadowEncoder(shadow, removed).node(data))
     rec.update(guard=guard, wf=wf, expected=expected, has_root=has_root, removed=removed,
@@ -200,7 +220,8 @@ def observe(case):
         first = "(done %s)" % rec["after"]
     else:
         first = "(failed %s %s)" % (family(rec["exc"]), rec["after"])
-    second = "(%s %s %s)" % ("true" if rec["wf"] else "false", "true" if rec["guard"] else "false", rec["expected"])
+    second = "(%s %s %s %s)" % ("true" if rec["wf"] else "false", "true" if rec["guard"] else "false",
+                                "true" if rec["ordered"] else "false", rec["expected"])
     return [first, second]
 
 
@@ -257,7 +278,8 @@ def classify(case, obs):
         pk = "exact"
     n = len(rec["order"])
     out = "done" if rec["exc"] is None else "raise"
-    flags = ("" if rec["guard"] else ":unguarded") + (":unlocated" if unlocated(rec) else "")
+    flags = (("" if rec["guard"] else ":unguarded") + ("" if rec["ordered"] else ":unordered")
+             + (":unlocated" if unlocated(rec) else ""))
     return "%s:n=%s:%s%s" % (pk, n if n < 4 else "4+", out, flags)
 
 
